@@ -12,7 +12,7 @@ def hdrArgs (args : List String) : Option (PkCfg × HdrSpec) := do
   | _ => none
 
 /-- `status` = packet.Status; `chain3 d` = PipeValid ⟫ SyncFIFO(d) ⟫ PipeReady (the mixed 3-element Pipeline of
-    `chain3_*` in LitexProps/C04.lean); the packet.py machines of b-c16 (`LitexModel/Packet/Num.lean`, same names
+    `chain3_*` in LitexProps/C04.lean); `chain_fb_pr d` = SyncFIFOBuffered(d) ⟫ PipeReady; the packet.py machines of b-c16 (`LitexModel/Packet/Num.lean`, same names
     and port orders as Driver/C16.lean); everything else is the shared stream-element dispatcher
     (`Stream/Open.lean`). -/
 def openC04 (args : List String) (hin hout : IO.FS.Stream) : Option (IO Bool) :=
@@ -20,6 +20,8 @@ def openC04 (args : List String) (hin hout : IO.FS.Stream) : Option (IO Bool) :=
   | ["status"] => some (serve numStatus hin hout)
   | ["chain3", d] => d.toNat?.map fun d =>
       serve (numElem ((pipeValid zTok).comp ((syncFifo d zTok).comp (pipeReady zTok)))) hin hout
+  | ["chain_fb_pr", d] => d.toNat?.map fun d =>
+      serve (numElem ((syncFifoBuffered d zTok).comp (pipeReady zTok))) hin hout
   | "packetizer" :: rest => (hdrArgs rest).map fun (c, h) => serve (numPacketizer c h) hin hout
   | "depacketizer" :: rest => (hdrArgs rest).map fun (c, h) => serve (numDepacketizer c h) hin hout
   | ["packetfifo", pd, qd] => do
